@@ -690,7 +690,7 @@ func ruleLockSites(c *Ctx, r *Reporter) {
 func init() {
 	register(&Rule{
 		ID: "INIT-SHAPE", Props: []string{"C19"}, Floor: 5,
-		Doc: "a table's initialization record gets a new watch channel only when the table has none (init == nil); copies made when registering or marking initializers keep the channel; Commit clears the record only when its pending list is empty and queues exactly that record's channel; Initialized() reports false together with the record's channel only while initializers are pending",
+		Doc: "a table's initialization record gets a new watch channel only when the table has none (init == nil); copies made when registering or marking initializers keep the channel; Commit clears the record only when its pending list is empty and queues exactly that record's channel; Initialized() reports false together with the record's channel only while initializers are pending; the mark-done function keeps no state outside the transaction and finds its own registration by an identity created per RegisterInitializer call, not by the caller-supplied name",
 		Run: ruleInitShape,
 	})
 }
